@@ -111,7 +111,11 @@ impl Case1 {
     }
 }
 
-/// a random query-array shape of the given rank, lengths 0..=3 (0 rarely)
+/// a random query-array shape of the given rank: lengths 0..=9 for rank 1, 0..=4 for higher
+/// ranks (0 rarely)
 pub fn qshape(src: &mut Src, rank: usize) -> Vec<usize> {
-    (0..rank).map(|_| src.weighted(&[1, 4, 4, 3])).collect()
+    if rank == 1 {
+        return vec![src.weighted(&[1, 4, 4, 3, 2, 2, 1, 1, 1, 1])];
+    }
+    (0..rank).map(|_| src.weighted(&[1, 4, 4, 3, 1])).collect()
 }
